@@ -33,6 +33,11 @@ def rand_rnote(rng, drum=False, rel=0.2, cont=0.2, rest=0.12, systems="sssshhccb
             n["acc"] = rng.choice(ACCS)
         if k in "sh" and rng.random() < 0.1:
             n["mode"] = rng.choice(MODES)
+    if accs and k in "cb" and rng.random() < 0.12:
+        # a per-note mode on a chord tone or bass tone (absolute or relative): the arpeggio is the chord's own, the mode does not move it
+        n["mode"] = rng.choice(MODES)
+    if accs and k == "s" and n.get("dir") and rng.random() < 0.1:
+        n["mode"] = rng.choice(MODES)          # relative scale steps counted in the note's own mode
     return n
 
 
